@@ -98,6 +98,7 @@ IntegrityMenu(ms) ==
 MC_DeliveryMenu(snt) ==
     CASE Menu = "none" -> {} [] Menu = "small" -> SmallMenu(1..MaxSeals) [] Menu = "full" -> FullMenu(1..MaxSeals)
       [] Menu = "integrity" -> IntegrityMenu(snt["s"])
+      [] Menu = "inorder" -> {D("msg", "s", i, 0, 0) : i \in 1..MaxSeals}
 
 MC_ExportMenu == {<<<<>>, 32>>, <<Leaf("ectx", 7), 32>>, <<Leaf("ectx", 7), 0>>,
                   <<<<>>, 8160>>, <<<<>>, 8161>>}
